@@ -768,6 +768,7 @@ func (fx *FnCtx) applyCall(st *State, ci *calleeInfo, recv *Val, args []Val, at 
 		}
 		st.assume(fx.specBool(cenv, e.Expr))
 	}
+	st.calls = append(st.calls, callRec{key: ci.key, named: copyNamed(cenv.named)})
 	res = append(res, outcome{st: st})
 	return res
 }
